@@ -1,23 +1,44 @@
 #!/usr/bin/env python3
-import os, sys
+"""Offline setup: pre-build every harness crate (Kani) against /repo's current tree and run the native tests that
+validate the reference models against the installed git binary. The oracle validation is reported, not fatal:
+its result is written to .work/oracle_validation.json and copied into every evidence file."""
+import json, os, subprocess, sys, time
 HERE = os.path.dirname(os.path.abspath(__file__))
 sys.path.insert(0, HERE)
 import runner, specs
-done = set()
+
+done = {}
 rc = 0
+os.makedirs(os.path.join(runner.WORK, "logs"), exist_ok=True)
 for pid in specs.all_ids():
     s = specs.load(pid)
-    c = s["crate"]
-    if c in done:
-        continue
-    done.add(c)
-    cwd = runner.prepare_crate(c)
-    os.makedirs(os.path.join(runner.WORK, "logs"), exist_ok=True)
-    logf = os.path.join(runner.WORK, "logs", "setup-%s.log" % c)
-    h = s["harnesses"][0]
-    r, wall, _ = runner.run_cmd(["cargo", "kani", "--target-dir", runner.target_dir(c), "--only-codegen", "--harness", h.name, "--exact"] + h.extra_args, cwd, 3000, 24, logf)
-    print("setup: %s built rc=%s in %.0fs" % (c, r, wall))
-    if r != 0:
-        print(open(logf, errors="replace").read()[-2000:])
-        rc = 1
+    for h in s["harnesses"]:
+        c = h.crate or s["crate"]
+        if c in done:
+            continue
+        done[c] = True
+        cwd = runner.prepare_crate(c)
+        logf = os.path.join(runner.WORK, "logs", "setup-%s.log" % c)
+        r, wall, _ = runner.run_cmd(["cargo", "kani", "--target-dir", runner.target_dir(c), "--only-codegen", "--harness", h.name, "--exact"] + h.extra_args,
+                                    cwd, 3000, 24, logf)
+        print("setup: %s built rc=%s in %.0fs" % (c, r, wall), flush=True)
+        if r != 0:
+            print(open(logf, errors="replace").read()[-2000:])
+            rc = 1
+
+validation = {}
+env = dict(runner.ENV)
+env["CARGO_TARGET_DIR"] = os.path.join(runner.TARGET_ROOT, "native")
+for c in sorted(done):
+    cwd = os.path.join(runner.VERIF, "harness", c)
+    t0 = time.time()
+    try:
+        p = subprocess.run(["cargo", "test", "--offline", "--lib"], cwd=cwd, env=env, capture_output=True, text=True, timeout=2400)
+        out = p.stdout + p.stderr
+        summary = [l for l in out.splitlines() if l.startswith("test result")]
+        validation[c] = {"rc": p.returncode, "summary": summary[-1] if summary else out[-300:], "wall_s": round(time.time() - t0)}
+    except Exception as e:  # pragma: no cover
+        validation[c] = {"rc": None, "summary": repr(e)}
+    print("setup: oracle validation %s: %s" % (c, validation[c]["summary"]), flush=True)
+json.dump(validation, open(os.path.join(runner.WORK, "oracle_validation.json"), "w"), indent=1)
 sys.exit(rc)
